@@ -1629,7 +1629,11 @@ public:
         ref2_gvars.get_offset_and_size().forget(m_base_dom);
       }
 
-      if (!(rgn1 == rgn2 && (eval(offset) == (number_t(0))))) {
+      // An alias of another reference variable (same region, offset
+      // 0) must be counted as well: if one of the two variables is
+      // redefined later the other one still points to the old cell,
+      // so the region cannot be treated as a singleton.
+      if (!(rgn1 == rgn2 && (eval(offset) == (number_t(0))) && ref1 == ref2)) {
         // Update region counting
         auto old_rgn2_info = m_rgn_env.at(rgn2);
         m_rgn_env.set(rgn2, region_domain_impl::region_info(
